@@ -255,7 +255,7 @@ def ob_condmin(lv, lm, lx):
     return h
 
 
-def ob_if_narrowing():
+def ob_if_narrowing(symbolic_x):
     """the meson_version narrowing of if-blocks (InterpreterBase.evaluate_if + MesonVersionString.version_compare + Range.intersect): a real Interpreter runs
     an if / elif / else chain whose conditions are version tests (symbolic operator and version), Booleans, and and/or/not combinations of them; a probe inside
     every block records the range feature checks would use there. In a block that runs, that range contains the running version (a feature check that is
@@ -290,7 +290,17 @@ def ob_if_narrowing():
             else:
                 e2, s2 = vc('%db' % ci); presets['V%db' % ci] = s2
                 cond = ('bin', 'and', e1, e2)
-            clauses.append((cond, has_v))
+            # the clause as a predicate of an ARBITRARY version x (reference: version_compare on x; the Booleans are this run's)
+            bv = B0 if ci == 0 else B1
+            def truth(x, shape=shape, s1=s1, bv=bv, s2=(presets.get('V%db' % ci))):
+                v1 = U.version_compare(x, s1)
+                if shape == 0: return v1
+                if shape == 1: return sym_not(v1)
+                if shape == 2: return bv
+                if shape in (3, 4): return sym_and(v1, bv)
+                if shape in (5, 6): return sym_or(v1, bv)
+                return sym_and(v1, U.version_compare(x, s2))
+            clauses.append((cond, has_v, truth))
         prog = [('expr', ('call', 'probe', [('num', 0)], {})),
                 ('if', [(clauses[0][0], [('expr', ('call', 'probe', [('num', 1)], {}))]), (clauses[1][0], [('expr', ('call', 'probe', [('num', 2)], {}))])],
                  [('expr', ('call', 'probe', [('num', 3)], {}))]),
@@ -317,6 +327,15 @@ def ob_if_narrowing():
         if blk == 3 or not clauses[blk - 1][1]:
             check(r == proj, 'a clause that tests no version leaves the project range in force')
         check(seen[2][1] == proj, 'after the if statement the project range is in force again')
+        # soundness for EVERY version, not only the running one: a version of the project's range for which the earlier clauses are false and this one true
+        # reaches the block - it must lie in the range feature checks use there
+        xs = (sym_str(1, 'x0', alphabet='012') + '.' + ['0', '12.99', '13'][choose(3, 'x1')]) if symbolic_x else ['0.0', '1.12.99', '2.0'][choose(3, 'x')]
+        X = U.Version(xs)
+        reaches = X in proj
+        for ci in range(blk - 1 if blk < 3 else 2):
+            reaches = sym_and(reaches, sym_not(clauses[ci][2](xs)))
+        if blk < 3: reaches = sym_and(reaches, clauses[blk - 1][2](xs))
+        check(sym_implies(reaches, X in r), 'every version that can reach a block lies in the range in force there')
         cover('block%d' % blk)
     return h
 
@@ -344,7 +363,7 @@ def obligations(tier):
         out.append(Obligation('check-to-range[%d]' % n, ob_checks(n, lv, 2), dict(checks=n, version_len=lv, x_len=2, alphabet='0-9ab.'), labels=('done',), max_paths=5000000))
     for n in (1,) if tier == 'quick' else (1, 2):
         out.append(Obligation('check-to-range-start[%d]' % n, ob_checks_start(n, 1, 1 if tier == 'quick' else 2, '019a.' if tier == 'quick' else '0123456789ab.'), dict(start='built from 2 checks', checks=n, version_len=1, x_len=1 if tier == 'quick' else 2, alphabet='019a.' if tier == 'quick' else '0-9ab.'), labels=('done',), max_paths=5000000))
-    out.append(Obligation('if-narrowing', ob_if_narrowing(), dict(chain='if / elif / else, probe in every block', clause='if: vc | not vc | B | vc and B | B and vc | vc or B | B or vc | vc and vc; elif: vc | not vc | B',
+    out.append(Obligation('if-narrowing', ob_if_narrowing(tier != 'quick'), dict(chain='if / elif / else, probe in every block', clause='if: vc | not vc | B | vc and B | B and vc | vc or B | B or vc | vc and vc; elif: vc | not vc | B',
                           version_test="symbolic operator (>= < ==) and version [0-2].(0|12.99); running version 1.12.99 (coredata.version)", project_requirement='>=0.5[05]'),
                           labels=('block1', 'block2', 'block3'), max_paths=3000000))
     out.append(Obligation('condition-with-min', ob_condmin(2, 2, 2), dict(lens=2, alphabet='0-9ab.'), labels=('true', 'false')))
